@@ -5,6 +5,7 @@
 -/
 import BB.Model.Codec
 import BB.Gen.KFloat
+import BB.Model.Ripasso
 
 open Lean BB BB.Codec
 
@@ -302,6 +303,18 @@ def step (p : Pool) (op : Json) : Pool × Json :=
           ((asArr (getField op "poss")).filterMap asInt?) ((asArr (getField op "vars")).map asVariation) with
       | .ok s' => (p.setSq (fStr op "to") s', jOk Json.null)
       | .error er => (p, jErr er)
+  else if o = "rip.apply" then
+    let sig := ((asArr (getField op "signal")).map fBits).toArray
+    let res :=
+      if fStr op "kind" = "custom" then
+        Rip.applyCustom sig (fBits (getField op "SR")) ((asArr (getField op "tf_freqs")).map fBits).toArray
+          ((asArr (getField op "tf_amp")).map fBits).toArray (fBool op "invert")
+      else
+        Rip.applyRC (fBool op "inverse") sig (fBits (getField op "SR")) (fStr op "kind") (fBits (getField op "fcut"))
+          (fInt op "order") (fBits (getField op "dc"))
+    match res with
+    | .ok ys => (p, jOk (Json.arr (ys.toList.map jBits).toArray))
+    | .error e => (p, jErr e)
   else if o = "pulse.eval" then
     match pulseEval (fStr op "fn") ((asArr (getField op "args")).map fBits) (fBits (getField op "SR")) (fInt op "n").toNat with
     | some xs => (p, jOk (Json.arr (xs.map jBits).toArray))
